@@ -57,6 +57,22 @@ CHECKS = {
               'are outside the model; the harness tokeniser and Python str() are trusted); pre/post_section_lines and '
               'mass-without-charge excluded; arities per GROMACS table.'),
         technique='Coq proof (writer model composed with an independent reader; induction over sections, groups and lines) + in-Coq correspondence and oracle evaluation on real output'),
+    'C16': dict(
+        category='proof',
+        text=('Coq theorems about a model of TruncFormatter and fixed-column records: with the t option a field has exactly '
+              'its width for every value, so in any layout the columns of field i hold exactly the formatted value i '
+              '(overflow cannot shift or corrupt another field); fitting integers and names are read back unchanged by '
+              'slice+strip+convert (decimal print/parse inverse from Coq DecimalString); over-long values keep their '
+              'significant end. The PDB ATOM/TER/CONECT and GRO format strings and the readers field tables are '
+              'regenerated from the source on every run and proved compatible (finite vm_compute theorems). A structural '
+              'theorem shows the bonds rebuilt from CONECT records are exactly the bonds written (injective serials, '
+              'chunking loses nothing). Tie: real formatter/writers compared character for character with the model; '
+              'real PDBParser/read_gro results evaluated by the round-trip checker in Coq; Python-only 10 050-atom sweep.'),
+        design_ref='DESIGN.md section 5, C16',
+        note=('Trusted: Coq kernel + vm_compute; translator vlib/extract.py (format mini-language -> layout); float '
+              'parsing/printing validated within 1e-9, not proved; altloc, blanks in names, empty molecules excluded; '
+              'MODEL/multi-model files and CRYST1 not modelled.'),
+        technique='Coq proof (exact-width lemma, field-in-place theorem by induction over the layout, decimal round trip, CONECT set equality) + tables regenerated from source + in-Coq correspondence'),
 }
 NOT_APPLICABLE = {}
 PENDING_REASON = 'not yet claimed: model and proofs for this property are still being built (see DESIGN.md staging); no check is registered so nothing is asserted'
